@@ -11,23 +11,26 @@ import (
 	"github.com/foxboron/go-uefi/internal/vsym"
 )
 
+var vsymC16Content = 4 // length of the signed content
+
 var vOIDSMIMECap = []byte{0x06, 0x09, 0x2a, 0x86, 0x48, 0x86, 0xf7, 0x0d, 0x01, 0x09, 0x0f}
 
 // vThirdPartyBlob builds, with the reference encoder (not the library's), the SignedData a standard
-// producer (openssl smime/cms -sign -md sha256, sbsign) emits: attributes in DER order contentType,
-// signingTime, messageDigest [, sMIMECapabilities]; options: outer ContentInfo or bare SignedData,
+// producer (openssl smime/cms -sign -md sha256, sbsign) emits: attributes contentType, signingTime, messageDigest
+// [, sMIMECapabilities] in DER SET OF order (by encoding; a short capability list sorts first); options: outer ContentInfo or bare SignedData,
 // NULL parameters present or absent, content attached or detached.
 func vThirdPartyBlob(signer crypto.Signer, certRaw, issuer, serial, content []byte, now time.Time,
 	smimecap []byte, outer, nullParams, attached bool) (blob, attrsInner []byte) {
 	md := sha256.Sum256(content)
-	attrsInner = vCat(
+	attrs := [][]byte{
 		vDER(0x30, vCat(vOIDContentTy, vDER(0x31, vOIDData))),
 		vDER(0x30, vCat(vOIDSignTime, vDER(0x31, vDER(0x17, []byte(now.Format("060102150405Z0700")))))),
 		vDER(0x30, vCat(vOIDMsgDigest, vDER(0x31, vDER(0x04, md[:])))),
-	)
-	if smimecap != nil {
-		attrsInner = vCat(attrsInner, vDER(0x30, vCat(vOIDSMIMECap, vDER(0x31, vDER(0x30, smimecap)))))
 	}
+	if smimecap != nil {
+		attrs = append(attrs, vDER(0x30, vCat(vOIDSMIMECap, vDER(0x31, vDER(0x30, smimecap)))))
+	}
+	attrsInner = vSetOf(attrs...) // DER producers emit the SET OF sorted (X.690 §11.6)
 	d := sha256.Sum256(vDER(0x31, attrsInner))
 	sig, _ := signer.Sign(rand.Reader, d[:], crypto.SHA256)
 	null := vNULL
@@ -59,7 +62,7 @@ func VC16_ThirdParty() {
 	s2 := vsym.BytesN("serial2", 2)
 	vsym.Assume(s2[0] != 0)
 	otherCert := vsym.Cert(other, s2)
-	content := vsym.BytesN("content", 4)
+	content := vsym.BytesN("content", vsymC16Content)
 	var smimecap []byte
 	// opaque capability list of several sizes: the signed attributes then take 105 bytes (absent),
 	// 127/128 bytes (the one-byte / 0x81 DER length boundary), 168 bytes (what OpenSSL's default list
